@@ -443,5 +443,9 @@ def fromBytes (bs : Bytes) : Outcome (Option Message) :=
        | none => .ok none)
     | _ => .ok none
 
+/-- `KrpcSocket::recv_from`: the datagram is read into a buffer of `MTU` bytes — a longer one is cut
+    there, as `UdpSocket::recv_from` does — and the bytes read are decoded -/
+def recvDatagram (bs : Bytes) : Outcome (Option Message) := fromBytes (bs.take Constants.MTU)
+
 end Krpc
 end Mainline
